@@ -278,7 +278,9 @@ def c11_scenarios(tier, seed):
     for n in sizes:
         for combo in itertools.combinations(keys, n):
             if tier == "quick" and n >= 3 and any(k in C11_COMBINED for k in combo):
-                continue        # the combined-anomaly templates: alone and in pairs (thorough: everywhere)
+                continue        # the combined-anomaly templates: alone and in pairs (thorough: also in triples and,
+            if n >= 4 and sum(k in C11_COMBINED for k in combo) > 1:
+                continue        # one at a time, in quadruples)
             for buf in (0, 1, 2):
                 for b in ((2, BIG) if tier == "quick" else (1, 2, 3, BIG)):
                     lists = [T[k] for k in combo]
